@@ -6,6 +6,7 @@ import vlib
 import proc
 import world
 import worldscen as ws
+import execbody
 
 R = '@R@'
 ALPHA = [' ', "'", '\\"', '*', '?', '$', '`', ';', '|', '&', '<', '>', '(', ')', '\t', '\n', 'a', 'b', '-', '=', '\xe9', '\xff', '#', '%s', '{', '}', '[', ']', '!', '..', '/']
@@ -172,6 +173,9 @@ def run(rep):
             rep.finding('unlisted', {'kind': r['kind'], 'config': r['config'], 'environment': r['env'], 'what': r['problems'][:5]})
         elif r['conform'] not in ('ok', 'skipped'):
             corr_bad.append(r)
+    # "reads the complete content from offset 0" when the transfer into the temporary file is disturbed (short counts, EINTR, ENOSPC,
+    # file size limit): tools/execbody.py, shared with C11
+    fault_cov = execbody.stage(rep, tools, whole_part=True)
     if corr_bad and not rep.violations:
         rep.violation({'obligation': 'correspondence: an exec scenario does not follow Model.mainP', 'disagreements': len(corr_bad), 'examples': corr_bad[:6]}, False)
     vlib.lean_conclude(rep)
@@ -187,12 +191,16 @@ def run(rep):
         'samples': results[:3],
         'kinds': kinds,
         'correspondence_mismatches': len(corr_bad),
+        'stdin_under_write_faults': fault_cov,
     })
 
 
 def replay(rep, path):
     import json
-    print(json.dumps(json.load(open(path)), indent=1)[:3000])
+    j = json.load(open(path))
+    print(json.dumps(j, indent=1)[:3000])
     sc = vlib.Scratch()
     vlib.lean_gate(rep, 'C13', sc, [])
+    if j.get('stage') == 'execbody':
+        execbody.replay(proc.Tools(sc), j)
     rep.coverage.update({'evaluations': 1, 'distinct_nontrivial': 1})
